@@ -386,6 +386,11 @@ def _effectful(t, model=None) -> bool:
     return contains(t, bad)
 
 
+def _multi_path(fn) -> bool:
+    """Does the function body branch (if / try / loop)?  Straight-line helpers are inlined at term level."""
+    return any(isinstance(n, (ast.If, ast.Try, ast.For, ast.While, ast.IfExp, ast.Match)) for n in ast.walk(fn.node))
+
+
 def _or_form(e: ast.IfExp) -> bool:
     """``x if x else d`` / ``d if not x else x``: the value of ``x or d`` (kept as one term)."""
     t = e.test
@@ -1104,6 +1109,9 @@ class _Builder:
             mk = lambda v: ast.copy_location(ast.Assign(targets=st.targets, value=v), st)  # noqa: E731
             synth = ast.copy_location(ast.If(test=st.value.test, body=[mk(st.value.body)], orelse=[mk(st.value.orelse)]), st)
             return self.s_If(synth, p)
+        fdes = self._desugar_filtered_comp(st, p)
+        if fdes is not None:
+            return fdes
         raw = self.ex(st.value, p)
         inl = self.inline_call(raw, p, st.lineno) if op(raw) == "call" else None
         if inl is not None:
@@ -1122,6 +1130,46 @@ class _Builder:
         for t in st.targets:
             self.assign(t, v, p, st.lineno)
         return [p]
+
+    def _desugar_filtered_comp(self, st, p):
+        """``d = {k: v for .. in .. if <tests with := or calls of multi-path helpers>}`` (also list / set
+        comprehensions): the explicit loop with the tests as ``if`` statements, so that the helper runs in place
+        and the walrus target is an ordinary local."""
+        v = st.value
+        if not isinstance(v, (ast.DictComp, ast.ListComp, ast.SetComp)) or len(st.targets) != 1 or not isinstance(st.targets[0], ast.Name) or self.owner is None:
+            return None
+        tests = [c for g in v.generators for c in g.ifs]
+        parts = tests + ([v.key, v.value] if isinstance(v, ast.DictComp) else [v.elt])
+        has_walrus = any(isinstance(n, ast.NamedExpr) for t in parts for n in ast.walk(t))
+        helper = False
+        for t in tests:
+            for n in ast.walk(t):
+                if isinstance(n, ast.Call) and isinstance(n.func, ast.Name):
+                    r = self.model.resolve_global(self.low.mod, n.func.id)
+                    if r and r[0] == "func" and self.owner.inlinable(r[1]) and r[1].qualname not in KNOWN_FUNCTIONS:
+                        helper = True
+        if not (has_walrus or helper):
+            return None
+        name = st.targets[0].id
+        empty = ast.Dict(keys=[], values=[]) if isinstance(v, ast.DictComp) else ast.List(elts=[], ctx=ast.Load()) if isinstance(v, ast.ListComp) else ast.Call(func=ast.Name(id="set", ctx=ast.Load()), args=[], keywords=[])
+        init = ast.Assign(targets=[ast.Name(id=name, ctx=ast.Store())], value=empty)
+        if isinstance(v, ast.DictComp):
+            put: ast.stmt = ast.Assign(targets=[ast.Subscript(value=ast.Name(id=name, ctx=ast.Load()), slice=v.key, ctx=ast.Store())], value=v.value)
+        else:
+            put = ast.Expr(value=ast.Call(func=ast.Attribute(value=ast.Name(id=name, ctx=ast.Load()), attr="append" if isinstance(v, ast.ListComp) else "add", ctx=ast.Load()), args=[v.elt], keywords=[]))
+        inner: ast.stmt = put
+        for g in reversed(v.generators):
+            body: list = [inner]
+            for c in reversed(g.ifs):
+                body = [ast.If(test=c, body=body, orelse=[])]
+            inner = ast.For(target=g.target, iter=g.iter, body=body, orelse=[])
+        for n in (init, inner):
+            ast.copy_location(n, st)
+            for m in ast.walk(n):
+                if not hasattr(m, "lineno"):
+                    ast.copy_location(m, st)
+            ast.fix_missing_locations(n)
+        return self.block([init, inner], [p])
 
     def _desugar_comp(self, st, raw, p):
         """`xs = [helper(x) for x in it]` with a multi-path unknown helper -> explicit loop + append."""
@@ -1156,6 +1204,10 @@ class _Builder:
         from .terms import BINOPS
 
         cur = self.ex(st.target, p)
+        if isinstance(st.op, ast.Add) and isinstance(st.target, ast.Name) and op(cur) == "attr" and cur[2].endswith("_synonyms"):
+            # `xs += ys` on a name that denotes a record's synonym list extends THAT list in place
+            p.events.append(self.E("expr", st.lineno, ("call", ("attr", cur, "extend"), (self.ex(st.value, p),), ())))
+            return [p]
         if isinstance(st.op, ast.Add) and isinstance(st.target, ast.Name) and op(cur) == "new" and cur[1] == "list":
             # in-place concatenation of a list the function allocated: xs.extend(ys)
             p.events.append(self.E("expr", st.lineno, ("call", ("attr", cur, "extend"), (self.ex(st.value, p),), ())))
@@ -1232,6 +1284,27 @@ class _Builder:
             test = ("cmp", neg[test[1]], test[2], test[3])
             pol = not pol
         test, pol = _len_truth(test, pol)
+        # a test on the value of a multi-path helper (`if helper(x):`, `if helper(x) is not None:`): run the helper
+        # in place and test what each of its paths returns
+        hc = test if op(test) == "call" else next((x for x in (test[2], test[3]) if op(x) == "call"), None) if op(test) == "cmp" else None
+        if hc is not None and self.owner is not None:
+            callee = self.resolve_callee(hc)
+            if callee is not None and callee.qualname not in KNOWN_FUNCTIONS and self.owner.inlinable(callee) and callee.qualname not in self.inline_stack and len(self.inline_stack) < 3 and _multi_path(callee):
+                inl = self.inline_call(hc, p, lineno)
+                if inl is not None:
+                    from .terms import substitute
+
+                    out: list[Path] = []
+                    for q, val in inl:
+                        if val is None:
+                            out.append(q)  # the helper raised
+                            continue
+                        # names bound to the call (walrus) now hold what this path returned
+                        for k_, v_ in list(q.env.items()):
+                            if v_ == hc:
+                                q.env[k_] = val
+                        out.extend(self._branch2(q, substitute(test, {hc: val}), pol, lineno, then_fn, else_fn))
+                    return out
         if op(test) == "cmp" and is_const(test[2]) and is_const(test[3]) and test[1] in ("is", "=="):
             # a comparison of two literals (after copy propagation) is decided
             a_, b_ = test[2][1], test[3][1]
